@@ -25,6 +25,7 @@ CLAIMED = {
  "C02": ("bounded unrolling, stated as such: from every symbolic start snapshot within the bounds, rounds of {cache refresh, real sync(key), fair kubelet step} reach a fixed point within 3(N+R+K)+4 rounds; there the pods are exactly the desired ordinals, Ready, updated at/above the partition, status counters equal spec.replicas; two further reconciles issue no write", "5/C02"),
  "C09": ("one sync(key) from a symbolic snapshot during which any one API call fails (up to six error kinds incl. lost responses) or the process dies at that call: unrecovered failures are reported as errors, the partial write log passes the C03/C04 monitors, and the fault-free loop of C02 afterwards reaches the same converged predicate", "5/C09"),
  "C18": ("decided part only: three reconciles on the world the upgrade helper leaves behind find, label-sync and adopt the marker-carrying revisions, create no revision, delete no pod and resolve the update revision to the adopted one - under the stated assumption that the computed patch equals the recorded data", "5/C18"),
+ "C20": ("the real newHijackWatch/receive/Stop/ResultChan between a source goroutine and a consumer under a cooperative scheduler whose choice of the next runnable goroutine at every synchronisation operation is symbolic: order/type/payload of relayed events incl. Error events, no panic, and after Stop or source end the channel is closed and no goroutine is left, for every interleaving within the preemption bound", "5/C20"),
 }
 NA = {}
 def main():
